@@ -594,6 +594,12 @@ pub fn run(ctx: &Ctx) -> (Report, PropertyMeta) {
             }
         }
     }
+    // a long series: 80 requests, prefixes and answering pattern cycling
+    sc.push(SeriesCase {
+        conns: 3,
+        reqs: (0..80).map(|i| SeriesReq { conn: i % 3, prefix: PREFIXES[(i / 2) % 4].to_vec(), payload: vec![i % 3, 2], answered: i % 5 != 3 }).collect(),
+        seed: 4242,
+    });
     let r = run_cases(ctx, "series", &sc, series_outcome);
     report.exhaustive_parts.push(format!("series of 3 requests at one library REP over 4 prefixes x answered/unanswered x same/other connection: {} cases", sc.len()));
     report.merge(r);
